@@ -8,7 +8,7 @@
    Shared with the model: the stop sets of the token readers (key_stop, fname_stop, var_stop,
    ictx_norm, ictx_names), the name table lookup (find_function over Gen.FnTable.fn_table,
    fn_of_canonical, arity_ok) and `trim`'s notion of white space (is_uni_ws). *)
-From Jawk Require Import Base F64 Json Reader JsonParser Fn Expr Render ExprParser.
+From Jawk Require Import Base F64 Json Reader JsonParser Fn Expr Chain Render ExprParser.
 From Jawk Require Gen.FnTable.
 Local Open Scope N_scope.
 
@@ -243,3 +243,17 @@ Fixpoint xwf_plain_args (args : list (pad * sexpr)) : Prop :=
 (* a word in any letter case: each byte is the upper-case letter or its lower-case form *)
 Definition ci_word (w upper_word : list byte) : Prop :=
   Forall2 (fun b u => b = u \/ b = u + 32) w upper_word.
+
+(* "" | "asc" | "desc" in any letter case *)
+Definition dir_word (word : list byte) (dir : direction) : Prop :=
+  match dir with
+  | Asc => word = [] \/ ci_word word [65; 83; 67]
+  | Desc => ci_word word [68; 69; 83; 67]
+  end.
+
+(* what may be written after the expression of --sort-by: nothing, or '=' and the direction word,
+   blanks allowed around the word *)
+Inductive dir_suffix : list byte -> direction -> Prop :=
+| DS_none : dir_suffix [] Asc
+| DS_word (pl word pr : list byte) (dir : direction) :
+    ws_ok pl -> ws_ok pr -> dir_word word dir -> dir_suffix (61 :: pl ++ word ++ pr) dir.
